@@ -634,8 +634,16 @@ def edges(rng, case, idx):
                     viol(['C12', 'C03'], 'C12:extreme_dilution_does_not_hold_the_stated_concentration', {'stock': [stock_c, stock_v], 'target': target, 'total': total, 'solute_stored': got, 'expected_stored': want})
             M.bucket(case['prop'] + '/edge/E22_a_trillion_fold_dilution')
             molar = C.create_solution(salt, water, concentration='1 M', total_quantity='1 L')
-            for target, tot in (('1 pM', '1 kL'), ('1 pM', '100 L'), ('10 pM', '1 kL'), ('0.001 nM', '1000 L')):
+            # (round 17: a portion of 1e-16 of the total, stated by mass or in moles - the solver returns it as 0.0 or just below)
+            for target, tot in (('1 pM', '1 kL'), ('1 pM', '100 L'), ('10 pM', '1 kL'), ('0.001 nM', '1000 L'),
+                                ('0.0001 pM', '1000 kg'), ('0.0001 pM', '12345 kg'), ('0.0001 pM', '1e6 kg'), ('0.0001 pM', '55 kmol'),
+                                ('0.0001 pM', '1000 kmol'), ('0.0002 pM', '2000 kg'), ('0.0001 pM', '1 kL')):
                 res, exc = attempt(lambda: C.create_solution_from(molar, salt, target, water, tot))
+                want_stored = R.parse_concentration(target)[0] * (R.parse_quantity(tot)[0] if tot.endswith('L') else 0.0) / cf.mol_prefix
+                if exc is not None and (not isinstance(exc, ValueError) or not tot.endswith('L') or want_stored >= 200 * cf.q):
+                    if isinstance(exc, ValueError) and not tot.endswith('L') and cf.q * cf.mol_prefix > 1e-15:
+                        continue        # (coarser mole storage: the solute may be below what is stored)
+                    viol(['C12', 'C03'], f'C12:feasible_extreme_dilution_refused:trillion_fold:{type(exc).__name__}', {'target': target, 'total': tot, 'exc': repr(exc)[:120]})
                 if exc is None:
                     got = R.concentration(res[1].contents, salt, 'mol', 'L')
                     want = R.parse_concentration(target)[0]
@@ -1007,6 +1015,34 @@ def edges(rng, case, idx):
                     res, exc = attempt(lambda: r.get_substance_used(water, 'prep', 'umol', [st_, new_]))
                     if exc is not None or abs(res) > 1e-3:
                         viol(['C09'], 'C09:net_change_of_zero_refused_as_a_decrease:solution_from_step', {'stock': contents_, 'solution': [target_, tot_], 'answer': res, 'exc': repr(exc)[:120]})
+            # (round 17) a solution step whose solvent container lists the solute with an amount of zero adds all of it from
+            # outside: that charge is no rounding noise, and a real loss elsewhere in the timeframe is still refused
+            M.bucket(case['prop'] + '/edge/E29_a_loss_next_to_a_solution_step_with_a_zero_entry')
+            for kind_ in ('declared with zero', 'emptied and refilled', 'plain'):
+                stock_ = C('stock', initial_contents=[(water, '50 mL'), (salt_, '10 mmol')])
+                if kind_ == 'declared with zero':
+                    dil_ = C('diluent', initial_contents=[(water, '100 mL'), (salt_, rng.choice(['0 mol', '0 mg']))])
+                elif kind_ == 'plain':
+                    dil_ = C('diluent', initial_contents=[(water, '100 mL')])
+                else:
+                    dil_ = C('diluent', initial_contents=[(water, '10 mL'), (salt_, '1 mmol')])
+                plate_, waste = pp.Plate('plate', '2 mL', rows=2, columns=3), C('waste')
+                r = pp.Recipe().uses(stock_, dil_, plate_, waste)
+                if kind_ == 'emptied and refilled':
+                    r.transfer(dil_, waste, f"{dil_.get_volume('mL')} mL")
+                    r.fill_to(dil_, water, '100 mL')
+                r.start_stage('load')
+                r.transfer(stock_, plate_, '100 uL')
+                r.end_stage('load')
+                r.start_stage('work')
+                r.create_solution(salt_, dil_, name='sol', concentration=rng.choice(['1 M', '0.5 M']), total_quantity='20 mL')
+                r.transfer(plate_[1], waste, rng.choice(['50 uL', '20 uL', '5 uL']))
+                r.end_stage('work')
+                _, exc = attempt(lambda: r.bake())
+                if exc is None:
+                    res, exc = attempt(lambda: r.get_substance_used(salt_, 'work', 'umol', destinations=[plate_]))
+                    if exc is None or not isinstance(exc, ValueError):
+                        viol(['C09'], 'C09:net_decrease_not_refused_with_ValueError:next_to_a_solution_step_with_a_zero_entry', {'diluent': kind_, 'answer': res, 'exc': repr(exc)[:100]})
             M.bucket(case['prop'] + '/edge/E29_a_loss_after_stamps_back_and_forth')
             lig = S.solid('ligand', 500.0)
             st = C('stock', '1 L', [(water, '100 mL'), (lig, '1 nmol')])        # 10 nM
@@ -1121,6 +1157,37 @@ def edges(rng, case, idx):
                 if exc is not None:
                     viol(['C12', 'C03'], f'C12:diluent_container_already_at_the_target_refused:{type(exc).__name__}', {'total': tot, 'exc': repr(exc)[:100]})
                     break
+            # (round 17, seeded s-C12-h) ... stated by mass or in moles, from a diluent of another density: the total is the stated one
+            dil2 = C.create_solution(salt, dmso, concentration='0.1 M', total_quantity='50 mL')
+            for tot in ('3 g', '20 mmol', '1.3 g', '50 mmol', '2 mL'):
+                res, exc = attempt(lambda: C.create_solution_from(st1, salt, '0.1 M', dil2, tot))
+                if exc is not None:
+                    viol(['C12', 'C03'], f'C12:diluent_container_already_at_the_target_refused:{type(exc).__name__}', {'total': tot, 'diluent': '0.1 M in DMSO', 'exc': repr(exc)[:100]})
+                    break
+                v_, b_ = R.parse_quantity(tot)
+                got = R.measure(res[2].contents, b_)
+                if abs(got - v_) > 1e-6 * v_:
+                    viol(['C12'], f'C12:total_quantity_not_met:diluent_container_already_at_the_target:{b_}', {'total': tot, 'got_in_base_units': got, 'diluent': '0.1 M in DMSO'})
+                    break
+            # (round 17, seeded s-C03-i) a target just above what the diluent container holds, from a weaker stock that holds
+            # a hundred stored digits of the solute: unreachable - the stock's own allowance (half a digit in a hundred) is
+            # not the diluent's
+            M.bucket(case['prop'] + '/edge/E30_just_above_the_diluent_container_from_a_trace_stock')
+            lig2 = S.solid('ligand', 500.0)
+            buf = C.create_solution(lig2, water, concentration='5 uM', total_quantity='100 mL')
+            for held_, over in (('0.01 pmol', 1.002), ('0.01 pmol', 1.0004), ('0.004 pmol', 1.005), ('1 pmol', 1.00002)):
+                trace = C('trace', initial_contents=[(water, '1 mL'), (lig2, held_)])
+                if not trace.contents.get(lig2) or cf.q / trace.contents[lig2] > 0.2:
+                    continue            # (below what the storage unit resolves)
+                own_b = R.concentration(buf.contents, lig2, 'mol', 'L')
+                target = f'{own_b * over * 1e6:.8g} uM'
+                res, exc = attempt(lambda: C.create_solution_from(trace, lig2, target, buf, '1 mL'))
+                if exc is None or not isinstance(exc, ValueError):
+                    viol(['C03', 'C12'], 'C03:unreachable_concentration:create_solution_from:above_the_diluent_container_from_a_trace_stock:' + ('accepted' if exc is None else type(exc).__name__),
+                         {'stock_holds': held_, 'diluent': '5 uM', 'target': target})
+                res, exc = attempt(lambda: C.create_solution_from(trace, lig2, f'{own_b * 0.5 * 1e6:.8g} uM', buf, '1 mL'))
+                if exc is not None:
+                    viol(['C12', 'C03'], f'C12:feasible_request_refused:between_a_trace_stock_and_the_diluent_container:{type(exc).__name__}', {'stock_holds': held_, 'exc': repr(exc)[:100]})
             M.bucket(case['prop'] + '/edge/E30_a_neat_stock_and_its_own_concentration')
             gly = S.liquid('glycerol', 92.09, 1.261)
             for sub, targets in ((dmso, ['100 %v/v', '100 %w/w', '1 mol/mol', '1.1004 g/mL']), (gly, ['OWN M', 'OWN g/L', '100 %v/v']), (eth, ['OWN M', '100 %v/v'])):
@@ -1234,6 +1301,22 @@ def edges(rng, case, idx):
                     tot_u = sum(a_ for s_, a_ in res.contents.items() if s_.is_enzyme())
                     if res.contents.get(cat_, 0.0) > 1e6 * cf.q and abs(res.contents[cat_] / tot_u - want) > 1e-7:
                         viol(['C05', 'C03'], 'C05:stated_concentration_not_met:solute_stated_per_a_trace_solute', {'concentrations': concs, 'total': tot, 'catalase_share_of_activity': res.contents[cat_] / tot_u, 'stated': want})
+            # (round 17) shares of one another that add up to one leave the total activity open: refused, or every stated value met
+            M.bucket(case['prop'] + '/edge/E31_enzyme_shares_that_add_up_to_one')
+            bsa_, gly_ = S.solid('BSA', 66430.0), S.liquid('glycerol', 92.09, 1.261)
+            amy_k, cat_5 = S.enzyme('amylase', '1000 U/mg'), S.enzyme('catalase', '5 U/mg')
+            for solutes_, concs, tot in (([amy_k, bsa_, cat_5], ['0.9 U/U', '1 mg/mL', '0.1 U/U'], '3 uL'), ([cat_5, bsa_, amy_k], ['0.1 U/U', '1 mg/mL', '0.9 U/U'], '10 uL'),
+                                         ([amy_k, salt, cat_5], ['0.3 U/U', '1 mM', '0.7 U/U'], '10 uL'), ([amy_k, cat_5, gly_], ['0.3 U/U', '0.7 U/U', '1 nL/L'], '20 nL'),
+                                         ([amy_k, cat_5, salt], ['0.5 U/U', '0.5 U/U', '1 mM'], rng.choice(['5 uL', '2 uL', '50 uL'])),
+                                         ([amy_k, cat_5], ['0.25 U/U', '0.75 U/U'], '5 uL')):
+                res, exc = attempt(lambda: C.create_solution(solutes_, water, concentration=concs, total_quantity=tot))
+                if exc is None:
+                    v_, b_ = R.parse_quantity(tot)
+                    got = R.measure(res.contents, b_)
+                    if abs(got - v_) > 1e-6 * v_ + 4 * cf.q * cf.vol_prefix:
+                        viol(['C05', 'C03'], 'C05:total_quantity_not_met:enzyme_shares_that_add_up_to_one', {'concentrations': concs, 'total': tot, 'got_L': got})
+                elif not isinstance(exc, ValueError):
+                    viol(['C05', 'C03'], f'C05:refusal_not_ValueError:enzyme_shares_that_add_up_to_one:{type(exc).__name__}', {'concentrations': concs, 'total': tot})
             M.bucket(case['prop'] + '/edge/E31_a_trace_in_moles_next_to_a_dilute_enzyme')
             amy50, lip3 = S.enzyme('amylase', '50 U/mg'), S.enzyme('lipase', '3 U/ug')
             for enz_, concs, tot in ((amy50, ['1 pg/kg', '10 kU/kg'], '1 kL'), (lip3, ['1 pg/kg', '100 kU/mol'], '10 kg'), (amy50, ['1 pM', '20 U/g'], '100 kg')):
